@@ -188,6 +188,29 @@ def site_roundtrip(job):
     return None if r == t else 'stored ' + repr(r)
 
 
+def sql_literal_job(job):
+    """the note text of a table / column reaches the DDL as ONE single-quoted literal of a COMMENT ON statement, quotes neutralised —
+    for the database as built, for a deep copy and for a pickle round trip of it (original dropped)"""
+    import copy, gc, pickle, re
+    site, t = job
+    want = [re.sub(r'\\\n', '', t).replace("'", '"')]
+    for how in ('built', 'deepcopy', 'pickle'):
+        db, _ = site_build(site, t)
+        try:
+            if how == 'deepcopy':
+                db = copy.deepcopy(db)
+            elif how == 'pickle':
+                db = pickle.loads(pickle.dumps(db))
+            gc.collect()
+            sql = db.sql
+        except Exception as e:   # noqa
+            return '%s: raise %s' % (how, type(e).__name__)
+        got = re.findall(r"COMMENT ON (?:TABLE|COLUMN) [^\n]*? IS '([^']*)';", sql)
+        if got != want:
+            return '%s: literals %r, expected %r' % (how, got, want)
+    return None
+
+
 def site_oracle(tier, v):
     import prop_parse
     from pydbml.parser.blueprints import NoteBlueprint
@@ -221,6 +244,13 @@ def site_oracle(tier, v):
             jobs.append((site, t))
     outs = prop_parse.pool_map(site_roundtrip, jobs)
     fails = []
+    sjobs = [(site, t) for site in ('table_note', 'column_note')
+             for t in list(all_strings(['a', "'", '"', ' ', '\n', ';'], 3 if tier == 'quick' else 5)) + pool if t.strip()]
+    for (site, t), o in zip(sjobs, prop_parse.pool_map(sql_literal_job, sjobs)):
+        if o is not None:
+            fails.append({'cause': 'oracle', 'clause': 'note text at site %s is not emitted as one single-quoted SQL literal (%s)' % (site, o),
+                          'input': {'kind': 'site-text', 'site': site, 'text_hex': hexs(t), 'text': t}})
+            break
     for (site, t), o in zip(jobs, outs):
         if o is not None:
             fails.append({'cause': 'oracle', 'clause': 'text at site %s does not survive render + parse: %s' % (site, o),
